@@ -1,6 +1,7 @@
 package vc
 
 import (
+	"os"
 	"fmt"
 	"go/types"
 	"runtime/debug"
@@ -88,6 +89,9 @@ type UnitOpts struct {
 	// they are proved in another unit of the same plan (the plan checks that). Sound: a conjunction of
 	// invariants is inductive if each conjunct is preserved under the assumption of all of them.
 	AssumeGroups []string
+	// SkipLoopFrame: no loopframe obligations (they depend on the code alone, not on the clause groups;
+	// when a function is proved in many units one of them generates them)
+	SkipLoopFrame bool
 }
 
 func groupMatch(groups []string, label string) bool {
@@ -210,6 +214,13 @@ func (e *Engine) VerifyFunc(name string, opts UnitOpts) (u *Unit, err error) {
 	u = newUnit(e, name)
 	u.exact = ct.Arith == "exact"
 	u.sidx0 = ct.Opts["sidx0"] == "true"
+	// two aids for long functions with many heap versions, off unless the contract asks for them (they cost
+	// time in small functions and can feed a matching loop between "every element has a key" and "every
+	// key has an element" clauses): a second trigger on loop frame axioms, over the heap before the loop
+	// (opt backpatterns), and heap reads that depend on no bound variable named outside the binder of a
+	// quantified clause (opt groundhints)
+	u.backpat = ct.Opts["backpatterns"] == "true" && os.Getenv("GOVC_NO_BACKPATTERN") == ""
+	u.ghints = ct.Opts["groundhints"] == "true" && os.Getenv("GOVC_NO_GROUNDHINTS") == ""
 	u.nopanic = opts.NoPanic
 	u.cover = opts.Cover
 	u.opts = opts
